@@ -1433,6 +1433,10 @@ func main() {
 		oversize(h)
 		return
 	}
+	if h.Mode == "eraser" {
+		eraser(h)
+		return
+	}
 	if h.Mode == "wakeup" {
 		wakeup(h)
 		return
@@ -1689,6 +1693,18 @@ func gen() {
 	fmt.Printf("/-- sampleBucket clamps remainingBudget to MaxUncompressedBucketSize/2 at the top level of its body (after BOTH budget sources) -/\n")
 	fmt.Printf("def sampleBudgetClampTopLevel : Bool := %v\n", clampTop)
 	fmt.Printf("def maxUncompressedBucketSize : Nat := %d\n", cc.MaxUncompressedBucketSize)
+	// goEraseHistoric: where does the disk usage it compares with the shard's share come from
+	usedSrc := "not-found"
+	if fd := funcDecl(sendF, "goEraseHistoric"); fd != nil {
+		ast.Inspect(fd, func(x ast.Node) bool {
+			if as, ok := x.(*ast.AssignStmt); ok && len(as.Lhs) >= 1 && render(fset, as.Lhs[0]) == "diskUsed" && len(as.Rhs) == 1 {
+				usedSrc = render(fset, as.Rhs[0])
+			}
+			return true
+		})
+	}
+	fmt.Printf("/-- goEraseHistoric: the expression assigned to `diskUsed` (compared with MaxHistoricDiskSize / NumShards) -/\n")
+	fmt.Printf("def eraserDiskUsedSource : String := %s\n", leanStr(usedSrc))
 	// sizes of the seconds the harness generates (stored frame: independent of the timestamp's digits)
 	gc := &caseRun{base: 1700000000, stats: map[string]int64{}}
 	u0 := gc.mkCbd(B).Len()
@@ -1928,6 +1944,71 @@ func oversize(h *verifx.H) {
 			fmt.Fprintf(out, "@nt oversize-second-accepted\n")
 		}
 		ch.srv.Close()
+	}
+	h.Done()
+}
+
+// ---------------------------------------------------------------- -mode=eraser: the real fail-safe eraser on several shards
+
+// An agent with 3..5 shards during an aggregator outage. Shards 0 and 2 hold one unacknowledged second each, 60% of a
+// shard's share of the disk limit; shard 1 holds two (120% of its share). The agent as a whole is under its limit. The REAL
+// goEraseHistoric of shard 1 must erase that shard's oldest second (deliberate loss: disk limit of the shard reached); the
+// REAL goEraseHistoric of shard 0 must leave its second on disk and put it back into the historic queue: a second erased by
+// the eraser while its shard is under its own share is lost outside the deliberate-loss set.
+func eraser(h *verifx.H) {
+	out := os.Stdout
+	for i := 0; i < h.N; i++ {
+		fmt.Fprintf(out, "@case %d %d\n", i, h.Seed)
+		rg := verifx.NewRng(h.Seed*131 + uint64(i))
+		nShards := 3 + rg.Intn(3)
+		share := int64(64<<10) << uint(rg.Intn(3))
+		dir, err := os.MkdirTemp("", "verif-c01e-")
+		if err != nil {
+			panic(err)
+		}
+		var body []byte
+		m, err := agent.VerifC01NewMulti(dir, nShards, share*int64(nShards), &sinkClient{got: &body})
+		if err != nil {
+			panic(err)
+		}
+		now := uint32(time.Now().Unix())
+		blob := rg.Bytes(int(share * 6 / 10))
+		id0 := m.Save(0, now-30, blob)
+		id1a := m.Save(1, now-40, blob)
+		id1b := m.Save(1, now-35, blob)
+		id2 := m.Save(2, now-30, blob)
+		u0, sh, sum := m.Usage(0)
+		u1, _, _ := m.Usage(1)
+		fmt.Fprintf(out, "# eraser: %d shards, share %d KiB, shard0 %d%%, shard1 %d%%, all shards %d%% of one share (%d%% of the whole limit)\n",
+			nShards, sh>>10, u0*100/sh, u1*100/sh, sum*100/sh, sum*100/(sh*int64(nShards)))
+		if id0 == 0 || id1a == 0 || id1b == 0 || id2 == 0 || u0 > sh || u1 <= sh || sum > sh*int64(nShards) {
+			fmt.Fprintf(out, "# eraser: scenario not established, skipped\n")
+			m.Close()
+			_ = os.RemoveAll(dir)
+			continue
+		}
+		// shard 1 first: shows that the eraser runs and does erase when the shard IS over its share
+		m.StartEraser(1)
+		deadline := time.Now().Add(20 * time.Second)
+		for time.Now().Before(deadline) && m.OnDisk(1, id1a) {
+			time.Sleep(20 * time.Millisecond)
+		}
+		if m.OnDisk(1, id1a) {
+			fmt.Fprintf(out, "# eraser: shard over its share was not trimmed within 20 s (eraser did not run?)\n")
+		}
+		m.StartEraser(0)
+		time.Sleep(1500 * time.Millisecond) // one pass takes microseconds: pop, window check, disk check, push back
+		switch {
+		case !m.OnDisk(0, id0):
+			fmt.Fprintf(out, "! sig=silently-lost the fail-safe eraser deleted the unacknowledged second of shard 0 from disk although that shard uses %d of its %d bytes (all %d shards together: %d of %d): not a deliberate disk-limit drop\n",
+				u0, sh, nShards, sum, sh*int64(nShards))
+		case m.Queue(0) != 1:
+			fmt.Fprintf(out, "! sig=forgot-without-ack after the eraser pass the unacknowledged second of shard 0 is on disk but no longer in the historic queue (%d entries)\n", m.Queue(0))
+		default:
+			fmt.Fprintf(out, "@nt eraser-kept-under-share\n")
+		}
+		m.Close()
+		_ = os.RemoveAll(dir)
 	}
 	h.Done()
 }
